@@ -57,8 +57,9 @@ def generate(rng, index, cfg):
     base, local, remote = nbgen.triple(rng, max_cells=rng.choice([1, 2, 3]), overlap=rng.choice([0.3, 0.7, 1.0]),
                                        minor=rng.choice([4, 5]), kinds=rng.choice([None, ["src"] * 5 + ["out", "md", "ins"], ["src"]]))
     triple = {"base": base, "local": local, "remote": remote}
-    shape = rng.choice(["plain"] * 6 + ["base_null", "base_empty", "local_null", "remote_null", "both_null", "missing", "local_empty"])
-    if entry == "driver" and shape in ("base_null", "local_null", "remote_null", "both_null", "missing"):
+    shape = rng.choice(["plain"] * 7 + ["base_null", "base_empty", "local_null", "remote_null", "both_null", "missing", "local_empty",
+                                        "remote_empty", "base_garbage", "remote_garbage", "local_bad_utf8", "remote_dir", "base_v3"])
+    if entry == "driver" and shape in ("base_null", "local_null", "remote_null", "both_null", "missing", "remote_dir"):
         shape = rng.choice(["plain", "base_empty"])      # git always hands the driver three temp files
     if shape == "base_null":
         triple["base"] = "NULL"
@@ -74,6 +75,18 @@ def generate(rng, index, cfg):
         triple[rng.choice(["base", "local", "remote"])] = "MISSING"
     elif shape == "local_empty":
         triple["local"] = "EMPTY"
+    elif shape == "remote_empty":
+        triple["remote"] = "EMPTY"
+    elif shape == "base_garbage":
+        triple["base"] = "GARBAGE"
+    elif shape == "remote_garbage":
+        triple["remote"] = "GARBAGE"
+    elif shape == "local_bad_utf8":
+        triple["local"] = "BADUTF8"
+    elif shape == "remote_dir":
+        triple["remote"] = "DIR"
+    elif shape == "base_v3":
+        triple["base"] = "V3"
     flags = []
     if rng.random() < 0.6:
         flags += ["--merge-strategy", rng.choice(MERGE_STRATS)]
@@ -143,6 +156,19 @@ def one_pass(sc, plan, line_total=None, count_lines=False, scratch=None):
             open(p, "w").close()
         elif v == "MISSING":
             pass
+        elif v == "GARBAGE":
+            with open(p, "w") as f:
+                f.write("<<<<<<< this is not a notebook\n{\"cells\": [\n")
+        elif v == "BADUTF8":
+            with open(p, "wb") as f:
+                f.write(b'{"cells": [], "metadata": {"k": "\xff\xfe"}, "nbformat": 4, "nbformat_minor": 4}')
+        elif v == "DIR":
+            os.makedirs(p)
+        elif v == "V3":
+            with open(p, "w") as f:
+                json.dump({"nbformat": 3, "nbformat_minor": 0, "metadata": {"name": "old"}, "worksheets": [{"cells": [
+                    {"cell_type": "code", "language": "python", "metadata": {}, "collapsed": False, "input": "x = 1", "outputs": [], "prompt_number": 1}],
+                    "metadata": {}}]}, f)
         else:
             with open(p, "w", encoding="utf8") as f:
                 json.dump(v, f, indent=1)
@@ -170,6 +196,22 @@ def one_pass(sc, plan, line_total=None, count_lines=False, scratch=None):
         except OSError:
             return None
     before = read_bytes(out_path) if out_path else None
+
+    def independent_inputs():
+        """What the three inputs are, read by the harness itself: the null file and an empty *base* stand for an
+        empty notebook (the placeholders the property allows); anything else must be the notebook stored in the file."""
+        out = []
+        for name in ("base", "local", "remote"):
+            v = sc["triple"][name]
+            if v == "NULL" or (v == "EMPTY" and name == "base"):
+                out.append(_canon_nb(nbformat.v4.new_notebook()))
+                continue
+            try:
+                out.append(_canon_nb(nbformat.read(paths[name], as_version=4)))
+            except Exception as e:
+                out.append({"__unreadable__": type(e).__name__})
+        return out
+    expected_inputs = independent_inputs()
 
     def classify(p):
         for name, q in paths.items():
@@ -293,7 +335,7 @@ def one_pass(sc, plan, line_total=None, count_lines=False, scratch=None):
     return {
         "status": status, "normal_return": normal_return, "exc": exc_name,
         "events": [list(e) for e in fs.events], "fired": [[list(k), f] for k, f in fs.fired], "fired_phase": fs.fired_phase,
-        "phase_end": fs.phase, "captured": captured, "before": before, "after": after, "stdout": stdout_text,
+        "phase_end": fs.phase, "captured": captured, "expected_inputs": expected_inputs, "before": before, "after": after, "stdout": stdout_text,
         "lines": counter["lines"], "digest": log.digest(), "n_events": log.n, "stderr": sink.getvalue()[-600:],
     }
 
@@ -353,6 +395,16 @@ def check_reference(sc, ref, violate):
         if ref["after"] != ref["before"]:
             violate("R", dict(sig, what="output_touched_without_merge"), "output changed although the library merge never returned")
         return "input_determined_failure"
+    # R2: what was merged is what the files hold (or the allowed placeholders) - never a silent substitute
+    exp = ref.get("expected_inputs") or []
+    for name, want, got in zip(("base", "local", "remote"), exp, ref["captured"].get("inputs") or []):
+        if isinstance(want, dict) and "__unreadable__" in want:
+            violate("R", dict(sig, what="unreadable_input_merged"),
+                    "%s cannot be read as a notebook (%s) but the command merged something in its place" % (name, want["__unreadable__"]))
+            break
+        if _mask_ids(want, set()) != _mask_ids(got, set()):
+            violate("R", dict(sig, what="input_substituted"), "the notebook merged as %s is not the notebook stored in the %s file" % (name, name))
+            break
     conflicts = _has_conflict(ref["captured"]["decisions"])
     if not ref["normal_return"]:
         # The command crashed on its own after the library merge returned (e.g. nbformat refuses to serialise the
@@ -378,6 +430,11 @@ def check_faulted(sc, ref, res, fault, violate):
     if not fired:
         return "not_fired"
     verified_complete = False
+    scen_ids = _collect_ids([v for v in sc["triple"].values() if isinstance(v, dict)])
+
+    def same_inputs(a, b):
+        # (reading an old-format notebook converts it and draws random cell ids: ids absent from the files are masked)
+        return _mask_ids(a, scen_ids) == _mask_ids(b, scen_ids)
     untouched = res["after"] == res["before"] and (sc["out"] != "stdout" or not (res["stdout"] or ""))
     special = sc["shape"] in ("missing", "both_null") or "merged" not in ref["captured"]
     if st == 0:
@@ -392,7 +449,7 @@ def check_faulted(sc, ref, res, fault, violate):
         if "merged" not in cap:
             violate("F1", dict(sig, what="success_without_merge"), "status 0 after fault %r but the library merge never returned" % (fault,))
             return "violation"
-        if cap["inputs"] != ref["captured"]["inputs"]:
+        if not same_inputs(cap["inputs"], ref["captured"]["inputs"]):
             violate("F1", dict(sig, what="inputs_differ"), "status 0 after fault %r but the notebooks handed to the merge differ from the files on disk" % (fault,))
             return "violation"
         if _has_conflict(cap["decisions"]):
@@ -414,7 +471,7 @@ def check_faulted(sc, ref, res, fault, violate):
                 return "violation"
         verified_complete = True
     elif st == 1 and res["normal_return"] and "merged" in cap and _has_conflict(cap["decisions"]):
-        if cap["inputs"] != ref["captured"]["inputs"]:
+        if not same_inputs(cap["inputs"], ref["captured"]["inputs"]):
             violate("F2", dict(sig, what="inputs_differ"), "finished with conflicts after fault %r but merged other inputs than the files on disk" % (fault,))
             return "violation"
         ok, why = _output_matches(sc, res)
